@@ -810,6 +810,8 @@ class Interp:
             if depth > (14 if v.name.startswith("op:") else 4):
                 return v.name.split("::")[-1]
             nm = v.name.split("::")[-1] if not v.name.startswith("op:") else v.name
+            if v.name.startswith("fn:"):
+                nm = v.name[3:]
             if v.vname is not None and v.vname != nm:
                 nm = "%s::%s" % (nm, v.vname)
             if not v.fields:
@@ -929,6 +931,9 @@ class Interp:
         cur = {}
         for addr, val in list(st.heap.items()):
             if isinstance(addr, tuple) and len(addr) == 2 and addr[0] == frame.id:
+                if isinstance(val, Adt) and _val_depth(val) > 6:
+                    st.heap[addr] = Top("widened:_%d" % addr[1])     # ever-growing symbolic value (accumulator)
+                    continue
                 if isinstance(val, Const) and isinstance(val.v, int) and val.ty != "bool":
                     if prev is not None and isinstance(prev, _HeadSnap) and addr in prev.vals and prev.vals[addr] != val.v:
                         st.heap[addr] = Top("widened:_%d" % addr[1])
@@ -1189,6 +1194,14 @@ class Interp:
             if isinstance(a.addr, str):
                 return (a.addr,) + self.path_names(st, a.addr, a.path)
         return None
+
+
+def _val_depth(v, d=0):
+    if d > 12:
+        return d
+    if isinstance(v, Adt) and v.fields:
+        return 1 + max(_val_depth(f, d + 1) for f in v.fields)
+    return 0
 
 
 def _op_depth(v):
